@@ -195,7 +195,7 @@ static CondEnv* CE;
 
 static std::string join(const std::vector<std::string>& v) { std::string s; for (auto& t : v) { if (!s.empty()) s += ' '; s += t; } return s; }
 
-// executes one condition case on the real code and judges it; returns observation hash
+// executes one condition case on the real code and judges it
 static bool known_key(const std::string& key) { for (auto& v : R->violations) if (v.key == key) { R->counters["violations_total"]++; return true; } return false; }
 static void run_cond(const Node& shape, bool full, const std::vector<int>& los, bool count_it, uint64_t shape_h = 0) {
     std::vector<std::string> tok; tok.reserve(40);
@@ -279,8 +279,6 @@ static void part_a() {
     const int NALL = (int)LEAVES.size();
     const int nfull = R->thorough() ? 5 : 4;        // all 13 leaf symbols
     const int ncore = R->thorough() ? 6 : 5;        // core alphabet (6 symbols) one level deeper
-    // shard 0 (whose report vcheck prefers) first walks the 4-leaf trees over the core alphabet unsharded and uncounted,
-    // so that the reproducer stored for a defect is a smallest one; every case of this pre-pass is executed again below.
     for (int n = 1; n <= ncore; ++n) {
         const bool fullalpha = n <= nfull;
         const int nalpha = fullalpha ? NALL : n >= 6 ? NCORE - 1 : NCORE;        // 6 leaves: core alphabet without wAll (5 symbols)
@@ -290,7 +288,9 @@ static void part_a() {
         // there is the same minimal one whichever shard reports it; counted by shard 0 only.
         const bool sharded = n > 3;
         std::vector<Node> sh = shapes(n);
-        if (n == 4 && R->shard == 0) for (auto s : sh) { int next = 0; number_slots(s, next); enum_shape(s, 4, NCORE, 0, false, false); }     // the pre-pass
+        // pre-pass: shard 0 (whose report vcheck prefers) walks the 4-leaf trees over the core alphabet unsharded and uncounted,
+        // so that the reproducer stored for a defect that needs 4 leaves is a smallest one; every case is executed again below.
+        if (n == 4 && R->shard == 0) for (auto s : sh) { int next = 0; number_slots(s, next); enum_shape(s, 4, NCORE, 0, false, false); }
         uint64_t before = R->evaluations;
         for (auto& s : sh) { int next = 0; number_slots(s, next); enum_shape(s, n, nalpha, nalpha_par, sharded, sharded || R->shard == 0); }
         if (R->shard == 0) R->count("tree_shapes_" + std::to_string(n) + "_leaves", (long long)sh.size());
